@@ -1140,6 +1140,7 @@ int Interpret::interpPipe() {
 
     bool inComment = false;
     bool inString = false;
+    bool inStringEscape = false;
     bool inQuotedSymbol = false;
 
     bool done  = false;
@@ -1191,7 +1192,14 @@ int Interpret::interpPipe() {
             }
             assert (not inComment and not inQuotedSymbol);
             if (inString) {
-                inString = (c != '\"');
+                // As in the lexer, a backslash escapes the next character of a string literal
+                if (inStringEscape) {
+                    inStringEscape = false;
+                } else if (c == '\\') {
+                    inStringEscape = true;
+                } else {
+                    inString = (c != '\"');
+                }
             } else if (c == '\"') {
                 inString = true;
             }
